@@ -156,6 +156,15 @@ func runC09(t *testing.T, tape *sim.Tape, tier string) *Outcome {
 	// in its CA file; then the CA file is replaced in place (same path), set again and the server restarted. The
 	// configured CA of the scenario is the one set last
 	rotated := tape.Draw(6, "ca-rotation") == 5
+	// one run in four (of the others): the server's certificate was issued by an authority of its own and its
+	// certificate file holds the full chain (leaf + issuer); the "foreign CA" client of such a run presents a
+	// certificate issued by that very authority - which is not the one configured for client certificates
+	chained := !rotated && tape.Draw(4, "chained-server-cert") == 3
+	if chained {
+		cl.Srv.ServerCert = p.ChainedServer.ChainPEM()
+		cl.Srv.ServerKey = p.ChainedServer.KeyPEM
+		o.stat("runs_with_server_certificate_chain_of_another_authority", 1)
+	}
 	if rotated {
 		cf, kf, _ := pemFiles()
 		caf := filepath.Join(filepath.Dir(cf), "ca-rotating.pem")
@@ -230,6 +239,9 @@ func runC09(t *testing.T, tape *sim.Tape, tier string) *Outcome {
 			faultyPlains = append(faultyPlains, fp)
 		default:
 			ident := identFor(sc.Cred)
+			if chained && sc.Cred == "foreign" {
+				ident = p.ViaServerCA
+			}
 			if sc.Cred == "wrongname" {
 				// half of the wrong-name clients carry a near miss of the rule's name (case, trailing dot, space, NUL, +-1 character, case-folding look-alike)
 				if v := tape.Draw(2*len(p.NearNames), "nearname"); v < len(p.NearNames) {
@@ -344,6 +356,9 @@ func runC09(t *testing.T, tape *sim.Tape, tier string) *Outcome {
 	if rotated {
 		where += " after a CA rotation and Restart"
 	}
+	if chained {
+		where += " with a server certificate chain issued by another authority"
+	}
 	// 1. the gate: commands only for admitted identities
 	if len(o.Viol) == 0 {
 		if sc.admitted() {
@@ -451,7 +466,7 @@ func init() {
 	register(&Check{
 		ID: "C09", Bubble: true, Run: runC09,
 		Runs:   map[string]int{"quick": 20 * n, "thorough": 1500 * n},
-		Rule:   fmt.Sprintf("the scenario space {no rule, common-name rule, rule+password} x {no certificate, self-signed, foreign CA, expired, right CA wrong name (half of them a near miss of the rule's name), right CA wrong common name with the rule's name among the DNS alternative names, right name only on an intermediate, right CA right name, plain-text bytes, garbage; abort after ClientHello; stalled handshake with and without a valid certificate} x {before, between, after well-behaved clients} = %d scenarios is enumerated completely (run index mod %d); per scenario the schedule (accept loop vs. handshake records vs. other clients), record chunking and TLS 1.2/1.3 are sampled; one run in sixteen adds a crowd of 130..250 connections that stay silent on the TLS port; a third of the runs repeat the scenario client 2..12 times, half of those one after the other with a shared TLS session cache (resumed sessions); with rule+password every TLS client first sends a command before AUTH, which must not reach the handler; one run in six starts from a configuration history (files; former CA; CA file replaced in place and set again; Restart); distinct = distinct (scenario, event-log hash) pairs", n, n),
+		Rule:   fmt.Sprintf("the scenario space {no rule, common-name rule, rule+password} x {no certificate, self-signed, foreign CA, expired, right CA wrong name (half of them a near miss of the rule's name), right CA wrong common name with the rule's name among the DNS alternative names, right name only on an intermediate, right CA right name, plain-text bytes, garbage; abort after ClientHello; stalled handshake with and without a valid certificate} x {before, between, after well-behaved clients} = %d scenarios is enumerated completely (run index mod %d); per scenario the schedule (accept loop vs. handshake records vs. other clients), record chunking and TLS 1.2/1.3 are sampled; one run in sixteen adds a crowd of 130..250 connections that stay silent on the TLS port; a third of the runs repeat the scenario client 2..12 times, half of those one after the other with a shared TLS session cache (resumed sessions); with rule+password every TLS client first sends a command before AUTH, which must not reach the handler; one run in six starts from a configuration history (files; former CA; CA file replaced in place and set again; Restart); a quarter of the other runs give the server a certificate chain (leaf + issuer) of an authority of its own, whose client certificate is the foreign one of that run; distinct = distinct (scenario, event-log hash) pairs", n, n),
 		Real:   []string{"redis.Server TLS accept loop and handshake, NewTLSConfigFrom, auth.CertificateAuthenticator, auth.AuthManager, crypto/tls (server and clients), crypto/x509 verification against the simulated clock"},
 		Stub:   []string{"network: simulated", "certificates: deterministic Ed25519 PKI valid relative to the bubble epoch", "handler: recording double"},
 		Assume: []string{"a plain client counts as served when it gets any reply to PING (with rule+password it cannot authenticate on the plain port)"},
